@@ -217,7 +217,7 @@ def run(ctx):  # noqa: C901
             t = Nb(n)
             okm = ("/", ("c", 1), ("n", "dim")) in t[2] and ("n", "inner_product") in t[2]
     sq = any(isinstance(n, ast.Assign) and isinstance(n.targets[0], ast.Name) and n.targets[0].id == "inner_product" and Nb(n.value)[0] == "**" and Nb(n.value)[2] == ("c", 2) and
-             "numpy.abs" in repr(Nb(n.value)) and "numpy.vdot" in repr(Nb(n.value)) for n in walk_no_nested(mub.node))
+             "numpy.abs" in repr(Nb(n.value)) and ("numpy.vdot" in repr(Nb(n.value)) or ("numpy.trace" in repr(Nb(n.value)) and "'dag'" in repr(Nb(n.value)))) for n in walk_no_nested(mub.node))
     ctx.ob("R-PRED", mub, "unbiased == |<a|b>|^2 ~ 1/dim for vectors of different bases", okm and sq, "|vdot|^2 compared with 1/dim" if okm and sq else "the unbiasedness condition changed")
     loops = [Nb(n.iter) for n in walk_no_nested(mub.node) if isinstance(n, ast.For)]
     okl = ("call", "builtins.range", (("+", (("c", 1), ("n", "i"))), ("n", "num_bases")), ()) in loops
@@ -317,6 +317,36 @@ def run(ctx):  # noqa: C901
             if {l_, r_} == {"a", "b"}:
                 # False exactly when partial(a) < partial(b)
                 cmpn = (l_ == "a" and isinstance(op, ast.Lt)) or (l_ == "b" and isinstance(op, ast.Gt))
+    if cmpn is None:
+        # cumulative-sum form: for ca, cb in zip(np.cumsum(a), np.cumsum(b)): if ca < cb [- tol]: return False
+        for n_ in walk_no_nested(mj.node):
+            if isinstance(n_, ast.For) and isinstance(n_.iter, ast.Call) and getattr(n_.iter.func, "id", "") == "zip" and len(n_.iter.args) == 2 and isinstance(n_.target, ast.Tuple) \
+                    and len(n_.target.elts) == 2 and all(isinstance(e, ast.Name) for e in n_.target.elts):
+                srcs = []
+                for a_ in n_.iter.args:
+                    nm_ = {x.id for x in ast.walk(a_) if isinstance(x, ast.Name)}
+                    srcs.append("a" if "a_var" in nm_ and "b_var" not in nm_ else "b" if "b_var" in nm_ and "a_var" not in nm_ else "?")
+                    if not (isinstance(a_, ast.Call) and getattr(a_.func, "attr", "") == "cumsum"):
+                        srcs[-1] = "?"
+                role = dict(zip([e.id for e in n_.target.elts], srcs))
+                for t_ in ast.walk(n_):
+                    if isinstance(t_, ast.If) and isinstance(t_.test, ast.Compare) and len(t_.test.ops) == 1 and \
+                            any(isinstance(x, ast.Return) and isinstance(x.value, ast.Constant) and x.value.value is False for x in t_.body):
+                        ln = {x.id for x in ast.walk(t_.test.left) if isinstance(x, ast.Name)} & set(role)
+                        rn_ = {x.id for x in ast.walk(t_.test.comparators[0]) if isinstance(x, ast.Name)} & set(role)
+                        if len(ln) == 1 and len(rn_) == 1:
+                            l_, r_ = role[ln.pop()], role[rn_.pop()]
+                            if {l_, r_} == {"a", "b"}:
+                                cmpn = (l_ == "a" and isinstance(t_.test.ops[0], ast.Lt)) or (l_ == "b" and isinstance(t_.test.ops[0], ast.Gt))
+    # both vectors are zero-padded to a common length (the comparison must run over the LONGER one)
+    pads = {}
+    for n_ in walk_no_nested(mj.node):
+        if isinstance(n_, ast.Assign) and len(n_.targets) == 1 and isinstance(n_.targets[0], ast.Name) and isinstance(n_.value, ast.Call) and getattr(n_.value.func, "attr", "") in ("pad", "append", "concatenate", "hstack"):
+            pads[n_.targets[0].id] = n_
+    okpad = "a_var" in pads and "b_var" in pads
+    ctx.ob("R-PRED", mj, "the shorter of the two vectors is zero-padded, whichever it is", okpad, "both a_var and b_var have a padding branch" if okpad else
+           f"only {sorted(pads)} is padded: when the other vector is the shorter one the partial sums beyond its length are never compared (zip / indexing stops at the shorter sequence)",
+           (list(pads.values()) or [None])[0])
     ctx.ob("R-PRED", mj, "a majorizes b: every partial sum of a >= that of b", cmpn, "partial(a) < partial(b) => False" if cmpn else
            "the partial-sum comparison rejects in the wrong direction (or not strictly)" if cmpn is False else "partial-sum comparison not recognised", required=cmpn is not None)
     # state-set predicates purity
